@@ -50,6 +50,30 @@ func init() { hreg.Register(&hreg.Mode{Name: "c15", Gen: gen, Exec: exec}) }
 
 var spec = configs.Minimal
 
+// oddSpec: the minimal preset with every configurable vector length set to a value that is NOT a power of two
+// (index arithmetic by masking instead of modulo only goes wrong here)
+var oddSpec = func() *common.Spec {
+	s := *configs.Minimal
+	s.SLOTS_PER_HISTORICAL_ROOT = 96
+	s.EPOCHS_PER_HISTORICAL_VECTOR = 72
+	s.EPOCHS_PER_SLASHINGS_VECTOR = 48
+	s.SYNC_COMMITTEE_SIZE = 24
+	s.MAX_COMMITTEES_PER_SLOT = 6
+	return &s
+}()
+
+func usePreset(id string) bool {
+	switch id {
+	case "minimal":
+		spec = configs.Minimal
+	case "odd":
+		spec = oddSpec
+	default:
+		return false
+	}
+	return true
+}
+
 // ---------------------------------------------------------------------------------------------
 // registry of view types
 
@@ -426,9 +450,16 @@ func fill(rng *rand.Rand, v reflect.Value, nvals int) {
 			case "SyncCommitteeBits":
 				b = make([]byte, (uint64(spec.SYNC_COMMITTEE_SIZE)+7)/8)
 				rng.Read(b)
+				if r := uint64(spec.SYNC_COMMITTEE_SIZE) % 8; r != 0 {
+					b[len(b)-1] &= byte(1<<r) - 1
+				}
 			case "SyncCommitteeSubnetBits":
-				b = make([]byte, (uint64(spec.SYNC_COMMITTEE_SIZE)/common.SYNC_COMMITTEE_SUBNET_COUNT+7)/8)
+				bits := uint64(spec.SYNC_COMMITTEE_SIZE) / common.SYNC_COMMITTEE_SUBNET_COUNT
+				b = make([]byte, (bits+7)/8)
 				rng.Read(b)
+				if r := bits % 8; r != 0 { // bitvector: the unused high bits of the last byte are zero
+					b[len(b)-1] &= byte(1<<r) - 1
+				}
 			case "AttestationBits":
 				n := rng.Intn(40)
 				b = make([]byte, n/8+1)
@@ -635,6 +666,14 @@ func argFromBytes(pt reflect.Type, b []byte) (reflect.Value, error) {
 // ---------------------------------------------------------------------------------------------
 // generator
 
+// presetOf: rounds 0,1 minimal (random / default value), rounds 2,3 the odd-length preset, then alternating
+func presetOf(r int) string {
+	if (r/2)%2 == 1 {
+		return "odd"
+	}
+	return "minimal"
+}
+
 func gen(o hreg.Opts, w *bufio.Writer) error {
 	rng := o.Rand()
 	st := o.Stats
@@ -645,6 +684,8 @@ func gen(o hreg.Opts, w *bufio.Writer) error {
 	rounds := o.Pick(4, 40)
 	for r := 0; r < rounds; r++ {
 		for _, d := range registry {
+			usePreset(presetOf(r))
+			st.Add("preset", presetOf(r))
 			nvals := 1 + rng.Intn(5)
 			sp := d.newStruct()
 			fillZero = r%2 == 1 // odd rounds start from the default (all-zero) value
@@ -656,6 +697,7 @@ func gen(o hreg.Opts, w *bufio.Writer) error {
 				return fmt.Errorf("%s: %v", d.key, err)
 			}
 			fmt.Fprintln(w, "reset")
+			emit("preset", " %s", presetOf(r))
 			var parts []string
 			for _, f := range fs {
 				parts = append(parts, f.name+"="+hx(f.val))
@@ -773,8 +815,14 @@ func gen(o hreg.Opts, w *bufio.Writer) error {
 				}
 			}
 			if strings.HasSuffix(d.key, "BeaconStateView") {
-				for k := 0; k < 16; k++ {
+				for k := 0; k < 20; k++ {
 					idx := rng.Uint64() >> uint(rng.Intn(64))
+					switch rng.Intn(4) {
+					case 0: // in the top part of the vector: at or above the largest power of two below its length
+						idx = 32 + uint64(rng.Intn(64))
+					case 1: // far above the length: wraps around several times
+						idx = uint64(1+rng.Intn(1000))*96 + uint64(rng.Intn(96))
+					}
 					var r32 [32]byte
 					rng.Read(r32[:])
 					var u8 [8]byte
@@ -846,6 +894,7 @@ func gen(o hreg.Opts, w *bufio.Writer) error {
 			emit("raw", "")
 		}
 	}
+	usePreset("minimal")
 	genCopies(o, rng, w)
 	fmt.Fprintln(w, "reset")
 	fmt.Fprintln(w, "get Slot") // no value yet
@@ -1256,6 +1305,7 @@ func exec(o hreg.Opts, sc *bufio.Scanner, w *bufio.Writer) error {
 		if len(f) == 1 && f[0] == "reset" {
 			s = &session{}
 			cw = newCopyWorld()
+			usePreset("minimal")
 			fmt.Fprintln(w, "reset")
 			continue
 		}
@@ -1264,6 +1314,12 @@ func exec(o hreg.Opts, sc *bufio.Scanner, w *bufio.Writer) error {
 			continue
 		}
 		res := hreg.Guard(func() string {
+			if f[0] == "preset" && len(f) == 2 {
+				if s.view != nil || !usePreset(f[1]) {
+					return "bad-op"
+				}
+				return "ok"
+			}
 			if r, ok := cw.step(f); ok {
 				return r
 			}
